@@ -379,7 +379,7 @@ class Ev:
         if is_sym(v):
             if name == "T":
                 return Transposed(v) if not isinstance(v, Transposed) else v.args[0]
-            if name in ("copy", "flatten", "to_numpy", "tolist", "conj", "real"):
+            if name in ("copy", "flatten", "to_numpy", "tolist", "conj", "real", "tobytes", "argmin", "argmax", "min", "max", "mean", "astype"):
                 return BoundLib(f"ndarray.{name}", v)
             if name == "shape":
                 if getattr(self, "shape_of", None) is not None:
@@ -413,7 +413,7 @@ class Ev:
             return ArrV(0, v.shape[::-1], v.fill, {(j, i): x for (i, j), x in v.cells.items()})
         if isinstance(v, ArrV) and name == "shape" and False:
             pass
-        if isinstance(v, DictV) and name in ("keys", "values", "items", "get", "update", "copy", "pop", "setdefault"):
+        if isinstance(v, DictV) and name in ("keys", "values", "items", "get", "update", "copy", "pop", "setdefault", "clear"):
             return BoundLib(f"dict.{name}", v)
         if v is None:
             raise RaisedV("AttributeError", f"{mod.rel}:{getattr(node, 'lineno', 0)}" if mod else "")
@@ -1325,6 +1325,11 @@ class Ev:
                               rest_full=rest_full)
                 env.setdefault("__masks__", {}).setdefault(t.value.id, []).append(rec)
                 return
+            if not conds and all((is_sym(i) and i.is_Integer) or isinstance(i, SliceV) for i in items):
+                # a positional store (e.g. ret[0, :] = 0): recorded as a mask with no condition
+                rec = MaskRec(None, src(t.slice), v, t.lineno, axis=0, rest_full=False)
+                env.setdefault("__masks__", {}).setdefault(t.value.id, []).append(rec)
+                return
         raise self.err("unsupported subscript store", t, mod)
 
     def s_Expr(self, st, env, mod):
@@ -1644,6 +1649,8 @@ def lib_len(ev, a, k, n, mod):
         return sp.Integer(len(v.d))
     if isinstance(v, ShapeOf):
         return RankOf(v.v)
+    if isinstance(v, ArrV) and v.batch == 0:
+        return sp.Integer(v.shape[0])
     raise ev.err("len() of a non-constant", n, mod)
 
 
@@ -1679,7 +1686,10 @@ def lib_sorted(ev, a, k, n, mod):
             return v
         if isinstance(v, Tup) and all(is_sym(i) and i.is_number for i in v.items):
             return tuple(v.items)
-        raise ev.err("sorted() of non-constants", n, mod)
+        try:
+            return hkey(v)
+        except AnalysisError:
+            raise ev.err("sorted() of non-constants", n, mod)
     rev = k.get("reverse", False)
     if not isinstance(rev, bool):
         raise ev.err("sorted(reverse=<non-constant>)", n, mod)
@@ -1900,6 +1910,17 @@ def lib_inv(ev, a, k, n, mod):
     if not isinstance(m, ArrV) or len(m.shape) != 2 or m.shape[0] != m.shape[1]:
         raise ev.err("numpy.linalg.inv of something that is not a (..., n, n) array", n, mod)
     size = m.shape[0]
+    if all(sp.sympify(m.get((i, j))).is_number for i in range(size) for j in range(size)):
+        M = sp.Matrix(size, size, lambda i, j: m.get((i, j)))
+        if M.det() == 0:
+            raise RaisedV("numpy.linalg.LinAlgError")
+        Mi = M.inv()
+        out = ArrV(m.batch, m.shape, sp.Integer(0), sym_of=m)
+        for i in range(size):
+            for j in range(size):
+                out.cells[(i, j)] = Mi[i, j]
+        ev.__dict__.setdefault("inversions", []).append(out)
+        return out
     symmetric = all(sp.simplify(m.get((i, j)) - m.get((j, i))) == 0 for i in range(size) for j in range(i))
     INV_COUNTER[0] += 1
     tag = INV_COUNTER[0]
@@ -2001,6 +2022,8 @@ def _minmax(fn):
         items = ev.iterate(a[0], n, mod) if len(a) == 1 else list(a)
         if all(is_sym(i) and i.is_number for i in items):
             return fn(items)
+        if all(is_sym(i) for i in items):
+            return (sp.Max if fn is max else sp.Min)(*items)
         raise ev.err("min()/max() of non-constants", n, mod)
     return f
 
@@ -2094,7 +2117,7 @@ def lib_enumerate(ev, a, k, n, mod):
     return Tup([Tup([sp.Integer(i), x]) for i, x in enumerate(ev.iterate(a[0], n, mod))], "list")
 
 
-LIB.update({"identity_method": lambda ev, a, k, n, mod: a[0], "list.append": lib_list_append, "list.index": lib_list_index, "list.tolist": lib_list_tolist,
+LIB.update({"ndarray.astype": lambda ev, a, k, n, mod: a[0], "identity_method": lambda ev, a, k, n, mod: a[0], "list.append": lib_list_append, "list.index": lib_list_index, "list.tolist": lib_list_tolist,
             "list.copy": lib_list_tolist, "next": lib_next, "any": lib_any, "all": lib_all, "numpy.any": lib_any,
             "numpy.all": lib_all, "enumerate": lib_enumerate})
 
@@ -2228,3 +2251,184 @@ LIB.update({"list.index": lib_list_index2, "list.pop": lib_list_pop,
             "pairlist.items": lambda ev, a, k, n, mod: Tup([Tup([kk, vv]) for kk, vv in a[0].pairs], "list"),
             "pairlist.keys": lambda ev, a, k, n, mod: Tup([kk for kk, vv in a[0].pairs], "list"),
             "pairlist.values": lambda ev, a, k, n, mod: Tup([vv for kk, vv in a[0].pairs], "list")})
+
+
+# ---------------------------------------------------------------- broader numpy / builtins coverage
+def _elementwise(fn):
+    """lift a scalar sympy function over ArrV cells"""
+    def f(ev, a, k, n, mod):
+        x = a[0]
+        if isinstance(x, Masked):
+            x = x.val
+        if isinstance(x, ArrV):
+            out = ArrV(x.batch, x.shape, fill=fn(as_sym(x.fill)) if is_sym(x.fill) else x.fill)
+            for key in itertools.product(*[range(d) for d in x.shape]):
+                out.cells[key] = fn(as_sym(x.get(key)))
+            return out
+        return fn(as_sym(x))
+    return f
+
+
+def _binary(op):
+    def f(ev, a, k, n, mod):
+        return ev.binop(op, a[0], a[1], n, mod)
+    return f
+
+
+def lib_bool(ev, a, k, n, mod):
+    return ev.truth(a[0], n, mod)
+
+
+def lib_combinations(with_replacement):
+    def f(ev, a, k, n, mod):
+        items = ev.iterate(a[0], n, mod)
+        r = _const_int(a[1])
+        fn = itertools.combinations_with_replacement if with_replacement else itertools.combinations
+        return Tup([Tup(t) for t in fn(items, r)], "list")
+    return f
+
+
+class BytesKey:
+    """x.tobytes(): a hashable key standing for the array's content"""
+
+    def __init__(self, expr):
+        self.const_key = ("bytes", sp.srepr(sp.sympify(expr)))
+
+    def __repr__(self):
+        return f"bytes{self.const_key[1][:40]}"
+
+
+def lib_tobytes(ev, a, k, n, mod):
+    return BytesKey(as_sym(a[0]))
+
+
+def lib_opaque_reduce(name):
+    def f(ev, a, k, n, mod):
+        from .opaque import homogeneous
+        extra = [as_sym(v) for kk, v in sorted(k.items()) if v is not None and not isinstance(v, bool)]
+        x = a[0]
+        if isinstance(x, ArrV):
+            raise ev.err(f"{name} of a small array is not modelled here", n, mod)
+        tag = name + ("_" + "_".join(f"{kk}{k[kk]}" for kk in sorted(k)) if k else "")
+        return homogeneous(tag, [as_sym(x)] + [as_sym(y) for y in a[1:]], (0,))
+    f.kw = None
+    return f
+
+
+def lib_where3(ev, a, k, n, mod):
+    if len(a) == 1:
+        return lib_where(ev, a, k, n, mod)
+    cond, x, y = a
+    if isinstance(cond, bool):
+        return x if cond else y
+    if isinstance(cond, CondV):
+        # an exact `== 0` guard on the value that is returned otherwise is the identity wherever that value is non-zero
+        if cond.op == "==" and is_sym(cond.rhs) and cond.rhs == 0 and is_sym(cond.lhs) and as_sym(y) == cond.lhs:
+            return y
+        return sp.Function("WHERE")(sp.Symbol("cond[" + cond.text + "]"), as_sym(x), as_sym(y))
+    if isinstance(cond, TolCond):
+        return sp.Function("WHERE")(sp.Symbol("cond[" + cond.text + "]"), as_sym(x), as_sym(y))
+    raise ev.err("numpy.where with an unsupported condition", n, mod)
+
+
+class TolCond:
+    def __init__(self, text):
+        self.text = text
+
+
+def lib_isclose_sym(ev, a, k, n, mod):
+    x = a[0]
+    if isinstance(x, ArrV):
+        from .linalg import isclose
+        return isclose(ev, a, k)
+    return TolCond(f"isclose({as_sym(x)}, {as_sym(a[1])}" + "".join(f", {kk}={vv}" for kk, vv in sorted(k.items())) + ")")
+
+
+lib_isclose_sym.kw = {"atol", "rtol"}
+
+
+def lib_inner(ev, a, k, n, mod):
+    A, B = a[0], a[1]
+    if isinstance(A, ArrV) and isinstance(B, ArrV) and len(A.shape) == 2 and len(B.shape) == 2 and A.shape[1] == B.shape[1]:
+        out = ArrV(0, (A.shape[0], B.shape[0]))
+        for i in range(A.shape[0]):
+            for j in range(B.shape[0]):
+                out.cells[(i, j)] = sum((A.get((i, kk)) * B.get((j, kk)) for kk in range(A.shape[1])), sp.Integer(0))
+        return out
+    return sp.Function("INNER")(as_sym(A), as_sym(B))
+
+
+def lib_dot(ev, a, k, n, mod):
+    A, B = a[0], a[1]
+    if isinstance(A, ArrV) and isinstance(B, ArrV):
+        return ev.arr_matmul(A, B, n, mod)
+    return MatProd(as_sym(A), as_sym(B))
+
+
+def lib_searchsorted(ev, a, k, n, mod):
+    side = k.get("side", "left")
+    return sp.Function("SEARCHSORTED_" + str(side))(as_sym(a[0]), as_sym(a[1]))
+
+
+lib_searchsorted.kw = {"side"}
+
+_ID = lambda ev, a, k, n, mod: a[0]
+_ID.kw = None
+LIB.update({
+    "bool": lib_bool, "itertools.combinations_with_replacement": lib_combinations(True), "itertools.combinations": lib_combinations(False),
+    "ndarray.tobytes": lib_tobytes,
+    "numpy.multiply": _binary(ast.Mult()), "numpy.divide": _binary(ast.Div()), "numpy.true_divide": _binary(ast.Div()),
+    "numpy.add": _binary(ast.Add()), "numpy.subtract": _binary(ast.Sub()), "numpy.power": _binary(ast.Pow()),
+    "numpy.negative": _elementwise(lambda x: -x), "numpy.square": _elementwise(lambda x: x ** 2),
+    "numpy.reciprocal": _elementwise(lambda x: 1 / x), "numpy.conj": _elementwise(sp.conjugate), "numpy.conjugate": _elementwise(sp.conjugate),
+    "numpy.asarray": _ID, "numpy.ascontiguousarray": _ID, "numpy.asfarray": _ID, "numpy.float64": _ID, "numpy.atleast_1d": _ID,
+    "numpy.mean": lib_opaque_reduce("MEAN"), "numpy.amin": lib_opaque_reduce("MIN"), "numpy.amax": lib_opaque_reduce("MAX"),
+    "numpy.min": lib_opaque_reduce("MIN"), "numpy.max": lib_opaque_reduce("MAX"),
+    "numpy.isclose": lib_isclose_sym, "numpy.where": lib_where3, "numpy.inner": lib_inner, "numpy.dot": lib_dot, "numpy.matmul": lib_dot,
+    "numpy.searchsorted": lib_searchsorted,
+    "ndarray.argmin": lambda ev, a, k, n, mod: sp.Function("ARGMIN")(as_sym(a[0])),
+    "ndarray.argmax": lambda ev, a, k, n, mod: sp.Function("ARGMAX")(as_sym(a[0])),
+    "ndarray.min": lib_opaque_reduce("MIN"), "ndarray.max": lib_opaque_reduce("MAX"), "ndarray.mean": lib_opaque_reduce("MEAN"),
+})
+lib_array.kw = {"dtype", "copy"}
+
+
+def lib_zeros_like(ev, a, k, n, mod):
+    x = a[0]
+    if isinstance(x, ArrV):
+        return ArrV(x.batch, x.shape, sp.Integer(0))
+    return sp.Integer(0)
+
+
+def lib_ones_like(ev, a, k, n, mod):
+    x = a[0]
+    if isinstance(x, ArrV):
+        return ArrV(x.batch, x.shape, sp.Integer(1))
+    return sp.Integer(1)
+
+
+def lib_eye(ev, a, k, n, mod):
+    nn = _const_int(a[0])
+    out = ArrV(0, (nn, nn))
+    for i in range(nn):
+        out.cells[(i, i)] = sp.Integer(1)
+    return out
+
+
+LIB.update({"numpy.zeros_like": lib_zeros_like, "numpy.ones_like": lib_ones_like, "numpy.empty_like": lib_zeros_like, "numpy.eye": lib_eye,
+            "numpy.identity": lib_eye, "numpy.empty": lib_zeros})
+
+
+def lib_dict_clear(ev, a, k, n, mod):
+    a[0].d.m.clear()
+    return None
+
+
+def lib_dict_setdefault(ev, a, k, n, mod):
+    d, key = a[0], a[1]
+    if key not in d.d:
+        d.d[key] = a[2] if len(a) > 2 else None
+    return d.d[key]
+
+
+LIB.update({"dict.clear": lib_dict_clear, "dict.setdefault": lib_dict_setdefault})
